@@ -656,7 +656,13 @@ func (fr *frame) findLoops() {
 	for h := range fr.loops {
 		heads = append(heads, h)
 	}
-	sort.Slice(heads, func(i, j int) bool { return loopPos(heads[i]) < loopPos(heads[j]) })
+	sort.Slice(heads, func(i, j int) bool {
+		pi, pj := loopPos(heads[i]), loopPos(heads[j])
+		if pi != pj {
+			return pi < pj
+		}
+		return heads[i].Index < heads[j].Index
+	})
 	for i, h := range heads {
 		fr.loops[h].ordinal = i
 		for b := range fr.loops[h].body {
@@ -678,6 +684,9 @@ func loopPos(h *ssa.BasicBlock) token.Pos {
 		}
 		seen[b] = true
 		for _, in := range b.Instrs {
+			if _, isPhi := in.(*ssa.Phi); isPhi {
+				continue // a phi carries the position of its variable's declaration, shared by sibling loops
+			}
 			if p := in.Pos(); p.IsValid() && (best == 0 || p < best) {
 				best = p
 			}
